@@ -102,7 +102,11 @@ Inductive op :=
 | OMedia (c : N) (to : recipient) (mk stream media : N)
 | OMcuDone (tok : N) (ok : bool)
 | OTransient (c kind key val : N)
-| ODeliver (pos : N).
+| ODeliver (pos : N)
+(* the connection is closed while its hello is being processed: before the backend answered (late =
+   false) or after the new session was entered into the backend's list and before it is entered into
+   the hub's tables (late = true); for a resume: while the hub looks the session up *)
+| OHelloAborted (c : N) (h : hello) (late : bool).
 
 Inductive rcpt := RcptVirtual (v : N) | RcptSid (s : N) | RcptOther.
 
@@ -1357,6 +1361,28 @@ Definition step (h : hub) (o : op) : hub * list out :=
                  end
         end)
   | ODeliver pos => deliver_at h (N.to_nat pos)
+  | OHelloAborted c hl late =>
+      match aget h.(h_conns) c with
+      | None => (h, [])
+      | Some cn =>
+          match cn.(c_sess) with
+          | Some _ => (h, [])
+          | None =>
+              match hl with
+              | HResume _ =>
+                  (* "client disconnected while checking message": nothing is attached, nothing changes *)
+                  close_conn h c
+              | HV1 b u false =>
+                  if h.(h_nb) <=? b then (h, [])
+                  else
+                    (* the backend was asked; the answer finds the connection closed. late: a session id was
+                       used up and the slot taken in the backend's list is given back when the session is closed *)
+                    let h1 := if late then set_nextsid h (next_id h) else h in
+                    let '(h2, outs) := close_conn h1 c in (h2, ToBackend (b, 0, 0, 0, 0, 1) :: outs)
+              | _ => (h, [])     (* not generated: the driver sends these as a hello followed by a drop *)
+              end
+          end
+      end
   end.
 
 (* quiescent semantics: the step, then every queued publication in publication order *)
